@@ -237,10 +237,72 @@ fn first_error_in_macro_declaration(text: &str) -> bool {
     })
 }
 
+thread_local! {
+    /// Self-test only: a function applied to the formatter's output, standing in for a broken formatter.
+    static TAMPER: std::cell::Cell<Option<fn(&str) -> String>> = const { std::cell::Cell::new(None) };
+}
+
 pub fn format_text(text: &str, cfg: &FmtCfg) -> String {
     let db = SimpleParserDatabase::default();
     let (root, _) = db.parse_virtual_with_diagnostics(text);
-    get_formatted_file(&db, &root, cfg.to_config())
+    let out = get_formatted_file(&db, &root, cfg.to_config());
+    match TAMPER.with(|t| t.get()) {
+        Some(f) => f(&out),
+        None => out,
+    }
+}
+
+/// Monitor self-test: the oracle must reject each of a handful of deliberately broken formatters
+/// on a small input, and accept the real one. Returns the names of the self-tests that failed.
+pub fn self_test() -> Vec<String> {
+    const INPUT: &str = "use a::b as x;\nuse a::b as y;\nuse a::c;\n// keep me\nfn f(a: u8, b: u8) -> u8 {\n    // inner note\n    let t = (a, b,);\n    a + b\n}\n";
+    fn drop_comment(s: &str) -> String {
+        s.replacen("// inner note", "//", 1)
+    }
+    fn drop_token(s: &str) -> String {
+        s.replacen("a + b", "a b", 1)
+    }
+    fn change_token(s: &str) -> String {
+        s.replacen("a + b", "a - b", 1)
+    }
+    fn drop_import(s: &str) -> String {
+        s.replacen("b as y, ", "", 1).replacen("use a::b as y;\n", "", 1)
+    }
+    fn grow(s: &str) -> String {
+        // Never reaches a fixpoint: every pass adds a blank line before `fn`.
+        s.replacen("fn f", "\n\nfn  f", 1)
+    }
+    fn break_syntax(s: &str) -> String {
+        s.replacen("-> u8 {", "-> u8 {{", 1)
+    }
+    let merged = FmtCfg::default_cfg();
+    let plain = FmtCfg { sort: false, merge: false, ..FmtCfg::default_cfg() };
+    let mut failed = vec![];
+    for cfg in [&merged, &plain] {
+        if !matches!(check_format(INPUT, cfg), Ok(true)) {
+            failed.push(format!("real-formatter-accepted({})", cfg.name()));
+        }
+    }
+    let cases: [(&str, fn(&str) -> String, &FmtCfg, &str); 8] = [
+        ("drop-comment", drop_comment, &plain, "comments-changed"),
+        ("drop-comment-sorted", drop_comment, &merged, "comments-changed"),
+        ("drop-token", drop_token, &plain, ""),
+        ("change-token", change_token, &plain, "tokens-changed"),
+        ("change-token-sorted", change_token, &merged, "tokens-changed"),
+        ("drop-import", drop_import, &merged, "uses-changed"),
+        ("never-idempotent", grow, &plain, "not-idempotent"),
+        ("output-does-not-parse", break_syntax, &plain, "output-does-not-parse"),
+    ];
+    for (name, f, cfg, want) in cases {
+        TAMPER.with(|t| t.set(Some(f)));
+        let r = guarded(|| check_format(INPUT, cfg));
+        TAMPER.with(|t| t.set(None));
+        match r {
+            Ok(Err((sig, _))) if sig.starts_with(want) => {}
+            other => failed.push(format!("{name}: expected {want:?}, oracle said {:?}", other.map(|x| x.map_err(|e| e.0)).map_err(|e| e.1))),
+        }
+    }
+    failed
 }
 
 /// Removes the optional tokens the formatter canonicalizes on purpose (node_properties.rs
@@ -660,6 +722,12 @@ pub fn gen_use_file(rng: &mut Rng) -> String {
 
 pub fn c11_worker(ctx: &mut Ctx) {
     install_panic_hook();
+    // The monitor tests itself before it is believed.
+    let failed = self_test();
+    ctx.count("selftest.broken_formatters_rejected", if ctx.shard == 0 { 8 - failed.iter().filter(|f| !f.starts_with("real")).count() as u64 } else { 0 });
+    for f in failed {
+        ctx.harness_error(format!("C11 oracle self-test failed: {f}"));
+    }
     let mut files: Vec<(String, String)> = crate::corpus::cairo_files()
         .into_iter()
         .map(|(p, s)| (crate::corpus::rel(&p), s))
@@ -704,8 +772,13 @@ pub fn c11_worker(ctx: &mut Ctx) {
                     FmtCfg::random(&mut rng)
                 };
                 ctx.eval();
-                let replay = json!({"text": t, "cfg": cfg, "base": name, "kind": kind});
-                match guarded(|| check_format(&t, &cfg)) {
+                let injected = kind.contains("comment-inject");
+                let replay = if injected {
+                    json!({"text": t, "cfg": cfg, "base": name, "kind": kind, "base_text": text})
+                } else {
+                    json!({"text": t, "cfg": cfg, "base": name, "kind": kind})
+                };
+                match guarded(|| check_with_attribution(&t, injected.then_some(text.as_str()), &cfg)) {
                     Ok(Ok(true)) => {
                         ctx.count(&format!("kind.{kind}"), 1);
                         ctx.count(if cfg.sort || cfg.merge { "checked.sort_or_merge_on" } else { "checked.token_exact" }, 1);
@@ -731,11 +804,29 @@ pub fn c11_worker(ctx: &mut Ctx) {
     }
 }
 
+/// `check_format`, and for a text that is `base` plus comments injected by the mutator: an
+/// idempotence / parse failure of unrecognised shape that disappears when the injected comments
+/// are taken out again is attributed to them (`...:injected-comment`).
+pub fn check_with_attribution(text: &str, base: Option<&str>, cfg: &FmtCfg) -> Result<bool, (String, String)> {
+    match check_format(text, cfg) {
+        Err((sig, desc)) if sig.starts_with("not-idempotent:other") || sig == "output-does-not-parse:other" => {
+            if let Some(base) = base {
+                if matches!(check_format(base, cfg), Ok(true)) {
+                    let class = sig.split(':').next().unwrap_or("");
+                    return Err((format!("{class}:injected-comment"), format!("{desc} - the same text without the injected comments passes")));
+                }
+            }
+            Err((sig, desc))
+        }
+        other => other,
+    }
+}
+
 pub fn c11_replay(case: &serde_json::Value) -> Result<Option<String>, String> {
     install_panic_hook();
     let text = case["text"].as_str().ok_or("no text")?;
     let cfg: FmtCfg = serde_json::from_value(case["cfg"].clone()).map_err(|e| e.to_string())?;
-    match guarded(|| check_format(text, &cfg)) {
+    match guarded(|| check_with_attribution(text, case["base_text"].as_str(), &cfg)) {
         Ok(Ok(true)) => Ok(None),
         Ok(Ok(false)) => Err("input is not error-free".into()),
         Ok(Err((sig, desc))) => Ok(Some(format!("{sig}: {desc}"))),
